@@ -43,6 +43,37 @@ type c17Case struct {
 	Cls  []string `json:"cls"`           // token classes
 	W    []int    `json:"w"`             // depth,index,iskey triples
 	Ops  []string `json:"ops,omitempty"` // trace histories
+	// what the tokenizer did before it was Reset to Doc ("" = a new tokenizer)
+	Prior string `json:"prior,omitempty"`
+}
+
+// "a Reset tokenizer behaves like a new one": the token stream of every document is also read with a
+// tokenizer that was used before - to the end of a document, stopped inside one, after an error, on input
+// with and without escapes - and then Reset
+var c17Priors = []struct {
+	name  string
+	doc   string
+	calls int // Next calls before the Reset (-1: until Next returns false)
+}{
+	{"", "", 0},
+	{"read to its end, no escapes", `{"a":[1,2,3]}`, -1},
+	{"stopped inside nested containers", `[[{"k":"v","w":[true`, 9},
+	{"after a syntax error", `[1,2}`, -1},
+	{"read to its end, escapes and non-ASCII", `["x\"y\n","é",{"\u00e9":null}]`, -1},
+	{"stopped after one token of a plain string array", `["abc","def"]`, 2},
+}
+
+func c17Tokenizer(prior string, doc []byte) *json.Tokenizer {
+	for _, p := range c17Priors {
+		if p.name == prior && p.name != "" {
+			t := json.NewTokenizer([]byte(p.doc))
+			for i := 0; i != p.calls && t.Next(); i++ {
+			}
+			t.Reset(doc)
+			return t
+		}
+	}
+	return json.NewTokenizer(doc)
 }
 
 var strVariants = []string{`"a"`, `""`, `"k\n"`, `"é😀"`, "\"é\"", `"a\"b\\"`, `"</x>&"`,
@@ -144,6 +175,10 @@ func c17RunDoc(c *Ctx, k c17Case) {
 	doc := []byte(k.Doc)
 	orig := append([]byte(nil), doc...)
 	fail := func(api, want, got string) {
+		if k.Prior != "" {
+			api += " (Reset tokenizer)"
+			got += " [tokenizer used before: " + k.Prior + "]"
+		}
 		c.Diverge("C17", api, want, got, "", k)
 	}
 	// REF: the definition must agree with encoding/json's token stream
@@ -165,7 +200,7 @@ func c17RunDoc(c *Ctx, k c17Case) {
 	var compact bytes.Buffer
 	stdjson.Compact(&compact, doc)
 	var concat []byte
-	t := json.NewTokenizer(doc)
+	t := c17Tokenizer(k.Prior, doc)
 	p := protect(func() {
 		for i, cl := range k.Cls {
 			c.Eval(1)
@@ -311,7 +346,10 @@ func c17Vector(c *Ctx, raw stdjson.RawMessage) {
 		if i == 1 {
 			c.Sample(map[string]any{"tokens": v.T, "doc": string(doc)})
 		}
-		c17RunDoc(c, k)
+		for _, pr := range c17Priors {
+			k.Prior = pr.name
+			c17RunDoc(c, k)
+		}
 	}
 }
 
